@@ -144,6 +144,7 @@ class Monitor:
         self.allowed_seen: set[str] = set()
         self.trace: list[tuple] | None = None  # filled in replay mode
         self.calls_seen = 0
+        self.getattr_names: set[str] = set()   # names a forwarding __getattr__ was asked for
         self.callables_served = 0   # a drop's __getitem__ handed a callable to the engine
 
     def configure(self, repo_dir: str) -> None:
@@ -868,6 +869,44 @@ _make("seqmax", (Sequence,), {**_tripwires(), "_setup": _seq_setup, "__getitem__
 _make("mapover", (Mapping,), {**_tripwires(), **_MAP_NS, "__len__": _len_fn("over")})
 _make("mapneg", (Mapping,), {**_tripwires(), **_MAP_NS, "__len__": _len_fn("neg")})
 
+# ---------------------------------------------------------------------------------------
+# forwarding proxies: the class has NO __getitem__ (obj[key] is a TypeError, so nothing is exposed
+# through the item protocol) but __getattr__ forwards attribute lookups to a wrapped object kept in
+# a private attribute.  `obj[key]` resolves __getitem__ on the TYPE; `getattr(obj, "__getitem__")`
+# goes through __getattr__ and gets the wrapped object's bound method.  The wrapped dict holds a
+# canary under every name the workload tries.  Every forwarded name is logged (it also passes
+# through the class's logging __getattribute__ first, where the allow-list judges it).
+# ---------------------------------------------------------------------------------------
+
+
+def _proxy_ns(shape: str, wrapped_kind: str, only_dunder: bool) -> dict[str, Any]:
+    def _setup(self, idx: int, **kw: Any) -> None:  # noqa: ARG001
+        if wrapped_kind == "dict":
+            w: Any = {n: f"CNRY_wrapped_{n.strip('_') or 'x'}_{shape}" for n in STORAGE_NAMES}
+            w["api_key"] = f"CNRY_wrapped_api_key_{shape}"
+        elif wrapped_kind == "list":
+            w = [f"CNRY_wrapped_el{j}_{shape}" for j in range(3)]
+        else:
+            w = _types.SimpleNamespace(api_key=f"CNRY_wrapped_api_key_{shape}",
+                                       token=f"CNRY_wrapped_token_{shape}")
+        self._wrapped = w
+
+    def __getattr__(self, name):  # noqa: ANN001, N807
+        MON.getattr_names.add(name)
+        if only_dunder and not (name.startswith("__") and name.endswith("__")):
+            raise AttributeError(name)
+        if name == "_wrapped":
+            raise AttributeError(name)
+        return getattr(_o(self, "_wrapped"), name)
+
+    return {"_setup": _setup, "__getattr__": __getattr__}
+
+
+_make("proxyall", (), _proxy_ns("proxyall", "dict", False))
+_make("proxydunder", (), _proxy_ns("proxydunder", "dict", True))
+_make("proxylist", (), _proxy_ns("proxylist", "list", False))
+_make("proxyrecord", (), _proxy_ns("proxyrecord", "record", False))
+
 SPY_SHAPES = [
     "plain", "callprop", "mapping", "sequence", "raiser_key", "raiser_type", "raiser_index",
     "raiser_attr", "raiser_value", "liquid", "html", "asyncdrop", "magic", "iterable",
@@ -875,6 +914,7 @@ SPY_SHAPES = [
     "ntuple", "typednt", "ntuplesub", "tuplesub", "dc_plain", "dc_frozen", "dc_slots", "enum",
     "simplens", "userdict", "userlist", "userstring", "dictpartial",
     "sized0", "sized1", "sizedmax", "sizedover", "sizedneg", "seqover", "seqmax", "mapover", "mapneg",
+    "proxyall", "proxydunder", "proxylist", "proxyrecord",
 ]
 
 # what each spy shape legitimately shows for a *string key* (relation check is skipped for
